@@ -197,7 +197,7 @@ func layoutUnits(sameNamedTypes bool) []scen.Unit {
 	}}
 	b := scen.Controller{Name: "Beta", Pkg: "p", Prefix: s("/beta"), Tag: s("Beta"), Methods: []scen.Method{
 		{Name: "BetaOne", Verb: "GET", Route: s("/one"), Params: []scen.Param{{Name: "h", Type: "int", In: "Header"}}, Ret: other},
-		{Name: "BetaTwo", Verb: "DELETE", Route: s("/two/{id}"), Params: []scen.Param{{Name: "id", Type: "string", In: "Path"}}},
+		{Name: "BetaTwo", Verb: "DELETE", Route: s("/two/{item-id}"), Params: []scen.Param{{Name: "id", Type: "string", In: "Path", Alias: "item-id"}}},
 	}}
 	c := scen.Controller{Name: "Gamma", Pkg: "q", Prefix: s("/gamma"), Tag: s("Gamma"), Methods: []scen.Method{
 		{Name: "GammaOne", Verb: "PUT", Route: s("/one"), Params: []scen.Param{{Name: "b", Type: "m1.Item", In: "Body"}, {Name: "k", Type: "*m1.Kind", In: "Query"}}, Ret: "m1.Kind"},
@@ -415,6 +415,25 @@ func Main(tier, replay string) {
 				run.Report(core.Violation{Oracle: "date-comment-is-the-only-difference", Features: p.Feat, What: "the spec changes with skipGenerateDateComment: " + diffLines(base.Spec, res.Files["dist/openapi.json"]), Case: map[string]any{"project": p.Name, "choices": map[string]int{}}})
 			case len(extra) != 1 || !dateLine.MatchString(extra[0]) || len(linesOnlyIn(base.Routes, res.Files["dist/routes/gleece.routes.go"])) != 0:
 				run.Report(core.Violation{Oracle: "date-comment-is-the-only-difference", Features: p.Feat, What: fmt.Sprintf("routes file with the date comment differs from the one without it by more than one 'Generated Date' line: added %q, removed %q", extra, linesOnlyIn(base.Routes, res.Files["dist/routes/gleece.routes.go"])), Case: map[string]any{"project": p.Name, "choices": map[string]int{}}})
+			}
+		}
+		// the spec does not depend on the routing engine: the first project once per other engine (unhooked binary)
+		if replayChoices == nil && pi == 0 {
+			for _, eng := range []string{"echo", "mux", "chi", "fiber"} {
+				work := fmt.Sprintf("%s-engine-%s", dir, eng)
+				copyDir(dir, work)
+				cfg := scen.CloneConfig(p.P.Config)
+				scen.Set(cfg, "routesConfig.engine", eng)
+				b, _ := json.MarshalIndent(cfg, "", "  ")
+				os.WriteFile(filepath.Join(work, "gleece.config.json"), b, 0o644)
+				res := scen.RunCLIBin(scen.CLIPath(false), work, []string{"generate", "spec-and-routes", "-c", "./gleece.config.json"}, 180)
+				os.RemoveAll(work)
+				run.AddValidated(1)
+				if res.Exit != 0 {
+					run.Outcome("engine "+eng+": project not generated (not judged)", 1)
+				} else if res.Files["dist/openapi.json"] != base.Spec {
+					run.Report(core.Violation{Oracle: "spec-independent-of-engine-and-glob-order", Features: map[string]string{"project": p.Name, "engine": eng}, What: "with engine " + eng + " the spec differs from the one generated with gin: " + diffLines(base.Spec, res.Files["dist/openapi.json"]), Case: map[string]any{"project": p.Name, "choices": map[string]int{}, "engine": eng}})
+				}
 			}
 		}
 		// what already lies at the output paths is no input: the same project and configuration over a spec that is the
